@@ -3,7 +3,7 @@
    stabilizer group G (enumerated from an independent generating set), and the arg-max choice
    (first index of the maximum, as Python's max over zip).  Generic in the commutative ring of
    probabilities; the engine runs the integer instance on numerators over a common power of two. *)
-From Coq Require Import List Arith Lia Bool ZArith.
+From Coq Require Import List Arith Lia Bool ZArith Permutation Ring.
 From QV Require Import Core.Bits Tensor.Sums.
 Import ListNotations.
 Local Open Scope nat_scope.
@@ -18,6 +18,7 @@ Qed.
 
 Section Coset.
 Variable K : cring.
+Add Ring Kring : (cring_th K).
 Local Notation "0" := (r0 K).
 Local Notation rI := (r1 K).
 Local Infix "+" := (radd K).
@@ -108,6 +109,43 @@ Proof.
     assert (Eg : xorv v u = g).
     { rewrite <- E. rewrite xorv_assoc, xorv_self, (HL u Hu), xorv_zeros_r. reflexivity. }
     rewrite Eg in Hin. exact Hin.
+Qed.
+
+(* the coset probability depends only on the coset: multiplying the representative by a group
+   element permutes the terms of the sum *)
+Lemma sum_list_perm (l l' : list K) : Permutation l l' -> sum_list l = sum_list l'.
+Proof.
+  induction 1 as [|x l l' H IH|x y l|l l' l'' H1 IH1 H2 IH2]; unfold sum_list in *; cbn [fold_right].
+  - reflexivity.
+  - rewrite IH. reflexivity.
+  - generalize (fold_right (radd K) 0 l). intros t. ring.
+  - congruence.
+Qed.
+Lemma xor_span_perm len gens g : Forall (fun g => length g = len) gens -> In g (span_list len gens) ->
+  Permutation (map (xorv g) (span_list len gens)) (span_list len gens).
+Proof.
+  intros HF Hg. pose proof (span_length len gens HF) as HL. rewrite Forall_forall in HL.
+  apply NoDup_Permutation_bis.
+  - assert (Hinj : forall u v, In u (span_list len gens) -> In v (span_list len gens) -> xorv g u = xorv g v -> u = v).
+    { intros u v Hu Hv E. rewrite <- (xorv_cancel_l g u), <- (xorv_cancel_l g v) by (rewrite (HL g Hg); symmetry; auto). now rewrite E. }
+    revert Hinj. generalize (span_list len gens) as s. induction s as [|x s IHs]; intros Hinj; cbn; [constructor|].
+    intros. apply NoDup_cons_iff in H. destruct H as [Hx Hs]. constructor.
+    + intros Hin. apply in_map_iff in Hin. destruct Hin as (y & Ey & Hy).
+      assert (y = x) by (apply Hinj; [right; exact Hy|left; reflexivity|exact Ey]). subst. contradiction.
+    + apply IHs; [|exact Hs]. intros u v Hu Hv. apply Hinj; right; assumption.
+  - rewrite map_length. lia.
+  - intros v Hv. apply in_map_iff in Hv. destruct Hv as (u & <- & Hu). apply span_closed; assumption.
+Qed.
+Theorem coset_prob_well_defined d n gens f g :
+  Forall (fun g => length g = n + n) gens -> indep (n + n) gens -> In g (span_list (n + n) gens) ->
+  coset_prob d n gens (xorv f g) = coset_prob d n gens f.
+Proof.
+  intros HF HI Hg. unfold coset_prob.
+  rewrite (map_ext (fun h => prob d n (xorv (xorv f g) h)) (fun h => (fun h' => prob d n (xorv f h')) (xorv g h)))
+    by (intros h; rewrite xorv_assoc; reflexivity).
+  rewrite <- (map_map (xorv g) (fun h' => prob d n (xorv f h'))).
+  apply sum_list_perm. apply Permutation_map.
+  refine (xor_span_perm (n + n) gens g HF Hg _). apply span_nodup; assumption.
 Qed.
 
 (* qubit-node values of the planar networks: the probability of f . Z^n X^e Z^s X^w (horizontal edge)
